@@ -186,6 +186,9 @@ func load(pkgDirs []string) (*loaded, error) {
 		l.pkgs[dir] = spkgs[k]
 	}
 	l.sh = interp.Prepare(prog)
+	if err := buildOracle(); err != nil {
+		fmt.Fprintln(os.Stderr, "symx: schema oracle not built:", err)
+	}
 	allowed := map[string]bool{"unicode": true, "strconv": true, "context": true, "golang.org/x/sync/errgroup": true,
 		"github.com/docker/go-connections/nat": true, "github.com/docker/go-units": true, "github.com/mattn/go-shellwords": true,
 		"path": true, "path/filepath": true, "io": true, "io/fs": true, "os": false, "sort": true, "slices": true, "maps": true,
@@ -201,6 +204,36 @@ func load(pkgDirs []string) (*loaded, error) {
 		return allowed[p]
 	}
 	return l, nil
+}
+
+var oracleDir string
+
+// buildOracle builds the native schema oracle from /repo's current tree.
+func buildOracle() error {
+	if oracleDir != "" {
+		return nil
+	}
+	src, err := os.ReadFile(filepath.Join(verifDir(), "harness", "_oracle", "main.go.txt"))
+	if err != nil {
+		return err
+	}
+	dir, _ := os.MkdirTemp("", "symx-oracle-")
+	oracleDir = dir
+	mainf := filepath.Join(dir, "main.go")
+	os.WriteFile(mainf, src, 0o644)
+	ov := map[string]interface{}{"Replace": map[string]string{filepath.Join(repo, "zz_verif_schemad", "main.go"): mainf}}
+	ovb, _ := json.Marshal(ov)
+	ovf := filepath.Join(dir, "overlay.json")
+	os.WriteFile(ovf, ovb, 0o644)
+	bin := filepath.Join(dir, "schemad")
+	cmd := exec.Command("go", "build", "-overlay", ovf, "-o", bin, "./zz_verif_schemad")
+	cmd.Dir = repo
+	cmd.Env = append(os.Environ(), "GOFLAGS=-mod=mod", "GOPROXY=off", "GOSUMDB=off", "GOTOOLCHAIN=local")
+	if out, err := cmd.CombinedOutput(); err != nil {
+		return fmt.Errorf("%v: %s", err, tail(string(out), 500))
+	}
+	interp.SchemaOracleCmd = []string{bin}
+	return nil
 }
 
 type Evidence struct {
@@ -273,6 +306,11 @@ func cmdCheck(args []string) int {
 
 	scratch, _ := os.MkdirTemp("", "symx-")
 	defer os.RemoveAll(scratch)
+	defer func() {
+		if oracleDir != "" {
+			os.RemoveAll(oracleDir)
+		}
+	}()
 
 	totalPaths, totalDecs, totalUndec, totalUnexpl, validated, mismatches := 0, int64(0), 0, 0, 0, 0
 	var samples []interface{}
